@@ -5,6 +5,9 @@ From GS.Model Require Import Base Varint Namespace ShareFmt Blob Sparse Compact 
 (* C05 begin *)
 From GS.Model Require Import Sha256 Nmt.
 (* C05 end *)
+(* C17 begin *)
+From GS.Model Require Import Mem.
+(* C17 end *)
 Require Import Extraction.
 Require Import ExtrOcamlBasic.
 Set Extraction KeepSingleton.
@@ -15,6 +18,9 @@ Extraction "model.ml"
   nmt_compute_root nmt_push_ok nmt_leaf_hashes nmt_root nmt_subtree_root row_leaves merkle_root
   subtree_roots create_commitment subtree_roots_sha commitment_sha
   (* C05 end *)
+  (* C17 begin: explicit-memory model of the read paths *)
+  mem_parse_blobs_run mem_parse_txs_run log_writes_below
+  (* C17 end *)
   (* base *)
   b2n n2b N.add N.mul N.div N.modulo N.compare N.of_nat N.to_nat Z.add Z.mul Z.opp Z.of_N Z.to_N Z.abs Z.compare
   bytes_eqb
